@@ -343,6 +343,37 @@ def asg_of_sexp(st):
     raise OutOfDomain("asg")
 
 
+def outside_domain(stmt, target):
+    """reason why a generated statement is outside the property's domain (else None):
+    * a REAL variable inside an array-section bound (not standard Fortran, extents become data dependent);
+    * the lowered intrinsic sits in the 2nd argument of an enclosing SIGN: then only the SIGN OF A ZERO
+      produced by the lowering is observed (ABS(+0.0) is lowered to 0.0 * -1.0 = -0.0), and signed zeros are
+      excluded from the property's value domain."""
+    from psyclone.psyir import nodes as N
+    from psyclone.psyir.symbols import ScalarType
+    for rge in stmt.walk(N.Range):
+        for ref in rge.walk(N.Reference):
+            if isinstance(ref.parent, N.IntrinsicCall) and ref.parent.is_inquiry:
+                continue
+            try:
+                if type(ref) is N.Reference and ref.symbol.datatype.intrinsic == ScalarType.Intrinsic.REAL:
+                    return "REAL variable in a section bound"
+            except AttributeError:
+                pass
+    if target[0] == "intrinsic":
+        try:
+            node = pick(stmt, target)
+        except IndexError:
+            return None
+        child, anc = node, node.parent
+        while anc is not None and anc is not stmt.parent:
+            if isinstance(anc, N.IntrinsicCall) and anc.intrinsic.name == "SIGN" and len(anc.arguments) == 2 \
+                    and anc.arguments[1] is child:
+                return "sign of a zero observed by an enclosing SIGN"
+            child, anc = anc, anc.parent
+    return None
+
+
 def has_bad_call(rhs):
     from psyclone.psyir import nodes as N
     for call in rhs.walk(N.Call):
